@@ -196,7 +196,11 @@ func r08f(c *core.Ctx) {
 		return
 	}
 	n := 0
-	for _, call := range core.Calls(sl) {
+	var builds []ssa.CallInstruction
+	for _, hf := range helperReach(sl, 1) {
+		builds = append(builds, core.Calls(hf)...)
+	}
+	for _, call := range builds {
 		cc, ok := call.(*ssa.Call)
 		if !ok || !strings.HasSuffix(core.CallName(cc), ").Build") {
 			continue
